@@ -15,7 +15,7 @@ import (
 
 // C07 — undo walks back through real earlier states; redo reverses undo.
 
-const c07Rule = "command sequences over an alphabet of 13 commands (emacs: insert x, insert blank, backward-delete-char, kill-word, unix-line-discard, yank, transpose-chars, backward-char, end-of-line, previous-history, next-history, undo, redo; vi: i x ESC, x, dw, p, h, $, k, j, u, redo ...), one command per read so every intermediate buffer is observed; bounded-exhaustive: EVERY sequence of length 3 (quick) / 5 (thorough) from two start states (empty line with a 2-entry history; typed text) in both modes, partitioned over the shards; random sequences up to length 60 beyond; oracle = invariants over the snapshot sequence per line identity (identity = history slot, tracked by the walk index model): (1) the buffer after an undo step was shown before for that line, (2) enough undos at the end reach that line's initial content, (3) for each block undo^n redo^n the buffer after equals the buffer before, (4) after undo^k then an edit, redo leaves the buffer unchanged; non-trivial = an undo preceded by >= 2 distinct buffers, or a redo, or an edit after an undo; distinct = hash of the case"
+const c07Rule = "command sequences over an alphabet of 13 commands (emacs: insert x, insert blank, backward-delete-char, kill-word, unix-line-discard, yank, transpose-chars, backward-char, end-of-line, previous-history, next-history, undo, redo; vi: i x ESC, x, dw, p, h, $, k, j, u, redo ...), one command per read so every intermediate buffer is observed; bounded-exhaustive: EVERY sequence of length 3 (quick) / 5 (thorough) from two start states (empty line with a 2-entry history; typed text) in both modes, partitioned over the shards; random sequences up to length 60 beyond, over that alphabet plus 11 more commands per mode (multi-byte insertions, kill-line, case and transpose commands, numeric arguments, quoted insert, word movements; vi: r, cw, X, P, C, counts) and multi-byte start texts; oracle = invariants over the snapshot sequence per line identity (identity = history slot, tracked by the walk index model): (1) the buffer after an undo step was shown before for that line, (2) enough undos at the end reach that line's initial content, (3) for each block undo^n redo^n the buffer after equals the buffer before, (4) after undo^k then an edit, redo leaves the buffer unchanged; non-trivial = an undo preceded by >= 2 distinct buffers, or a redo, or an edit after an undo; distinct = hash of the case"
 
 type C07Case struct {
 	Mode  string `json:"mode"`  // emacs | vi
@@ -39,6 +39,11 @@ func c07Alphabet(e *Env, mode string) []c07Cmd {
 			{"transpose-chars", []string{"\x14"}, "edit"}, {"backward-char", []string{"\x02"}, "move"}, {"end-of-line", []string{"\x05"}, "move"},
 			{"previous-history", []string{"\x10"}, "prev"}, {"next-history", []string{"\x0e"}, "next"},
 			{"undo", []string{"\x1f"}, "undo"}, {"redo", []string{redo}, "redo"},
+			// beyond the enumerated 13: random part only
+			{"insert-wide", []string{"日"}, "edit"}, {"insert-accent", []string{"é"}, "edit"}, {"kill-line", []string{"\x0b"}, "edit"},
+			{"beginning-of-line", []string{"\x01"}, "move"}, {"forward-char", []string{"\x06"}, "move"}, {"upcase-word", []string{"\x1bu"}, "edit"},
+			{"transpose-words", []string{"\x1bt"}, "edit"}, {"backward-kill-word", []string{"\x1b\x7f"}, "edit"}, {"arg3-insert-y", []string{"\x1b3", "y"}, "edit"},
+			{"quoted-insert-C-a", []string{"\x16", "\x01"}, "edit"}, {"backward-word", []string{"\x1bb"}, "move"},
 		}
 	}
 
@@ -48,6 +53,10 @@ func c07Alphabet(e *Env, mode string) []c07Cmd {
 		{"tilde", []string{"~"}, "edit"}, {"h", []string{"h"}, "move"}, {"dollar", []string{"$"}, "move"},
 		{"k", []string{"k"}, "prev"}, {"j", []string{"j"}, "next"},
 		{"u", []string{"u"}, "undo"}, {"redo", []string{redo}, "redo"},
+		// beyond the enumerated 13: random part only
+		{"i-wide-esc", []string{"i", "日", "\x1b"}, "edit"}, {"A-accent-esc", []string{"A", "é", "\x1b"}, "edit"}, {"r-Z", []string{"r", "Z"}, "edit"},
+		{"cw-y-esc", []string{"c", "w", "y", "\x1b"}, "edit"}, {"X", []string{"X"}, "edit"}, {"P", []string{"P"}, "edit"},
+		{"zero", []string{"0"}, "move"}, {"w", []string{"w"}, "move"}, {"C", []string{"C", "\x1b"}, "edit"}, {"3x", []string{"3", "x"}, "edit"}, {"b", []string{"b"}, "move"},
 	}
 }
 
@@ -55,10 +64,34 @@ var c07Hist = []string{"first entry", "second one"}
 
 func genC07(t *rapid.T) *C07Case {
 	c := &C07Case{Mode: rapid.SampledFrom([]string{"emacs", "emacs", "vi"}).Draw(t, "mode")}
-	c.Start = rapid.SampledFrom([]string{"", "ab cd", "hello"}).Draw(t, "start")
-	// weights: undo/redo more frequent
-	idx := rapid.SampledFrom([]int{0, 0, 1, 2, 2, 3, 4, 5, 6, 7, 8, 9, 10, 11, 11, 11, 11, 12, 12, 12})
-	c.Seq = rapid.SliceOfN(idx, 1, 60).Draw(t, "seq")
+	c.Start = rapid.SampledFrom([]string{"", "ab cd", "hello", "日本 é x", "a b c d"}).Draw(t, "start")
+	// weights: undo/redo more frequent; 13-23 = the commands beyond the enumerated alphabet
+	idx := rapid.SampledFrom([]int{0, 0, 1, 2, 2, 3, 4, 5, 6, 7, 8, 9, 10, 11, 11, 11, 11, 11, 11, 12, 12, 12, 12, 12, 13, 14, 15, 16, 17, 18, 19, 20, 21, 22, 23})
+	// chunks: single commands, and the blocks clauses (3) and (4) are about
+	// (undo^n redo^n; undo^k, an edit, redo) so that they occur with every prefix
+	nchunks := rapid.IntRange(1, 40).Draw(t, "nchunks")
+
+	for i := 0; i < nchunks && len(c.Seq) < 60; i++ {
+		switch rapid.IntRange(0, 9).Draw(t, "chunk") {
+		case 0:
+			n := rapid.IntRange(1, 4).Draw(t, "nundo")
+			for j := 0; j < n; j++ {
+				c.Seq = append(c.Seq, 11)
+			}
+
+			for j := 0; j < n; j++ {
+				c.Seq = append(c.Seq, 12)
+			}
+		case 1:
+			for j := rapid.IntRange(1, 3).Draw(t, "kundo"); j > 0; j-- {
+				c.Seq = append(c.Seq, 11)
+			}
+
+			c.Seq = append(c.Seq, rapid.SampledFrom([]int{0, 1, 2, 13, 14}).Draw(t, "edit"), 12)
+		default:
+			c.Seq = append(c.Seq, idx.Draw(t, "cmd"))
+		}
+	}
 
 	return c
 }
@@ -187,7 +220,37 @@ func runC07(h *Harness, child *rig.Child, c *C07Case) (*Failure, bool) {
 			k++
 		}
 
-		if k-j == nu && steps[i-1].id == steps[k-1].id {
+		// An undo at the oldest state does nothing. When the block starts in the
+		// middle of the line's history (it follows a redo that left states ahead),
+		// the n redos then go further forward than the undos went back: the
+		// statement's "n undos" are n steps back, so such a block is not judged.
+		// It is judged when the block starts at the newest state (the last command
+		// that was not a movement changed the buffer): redo cannot overshoot there.
+		clamped := false
+
+		for u := i; u < j; u++ {
+			if steps[u].buf == steps[u-1].buf {
+				clamped = true
+			}
+		}
+
+		atTop := false
+
+		for b := i - 1; b >= 0; b-- {
+			if steps[b].kind == "move" {
+				continue
+			}
+
+			atTop = steps[b].kind == "start" || (steps[b].kind == "edit" && b > 0 && steps[b].buf != steps[b-1].buf)
+
+			break
+		}
+
+		if k-j == nu && steps[i-1].id == steps[k-1].id && clamped && !atTop {
+			h.class("undo-redo-block-not-judged(clamped-undo-mid-history)")
+		}
+
+		if k-j == nu && steps[i-1].id == steps[k-1].id && !(clamped && !atTop) {
 			if steps[k-1].buf != steps[i-1].buf {
 				return failf("undo-redo", "c07:"+c.Mode+":undo-redo", "sequence %v from %q: %d undo(s) followed by %d redo(s) turned %q into %q (states: %s)",
 					names, c.Start, nu, nu, steps[i-1].buf, steps[k-1].buf, c07States(steps[i-1:k])), true
